@@ -4135,6 +4135,13 @@ def judge_qap_run(run, plan):
         io_by_name.setdefault(f["name"], set()).add(f["nargs"] + P.CodeGen.SUBQAP_RET[f["tmpl"]] > 0)
     ncalls = sum(1 for c in fns if c != "main" and io_by_name.get(fns[c], {True}) != {False})
     ambiguous = any(c != "main" and len(io_by_name.get(fns[c], {True})) > 1 for c in fns)   # (two bodies, one name)
+    # a call whose body raised (the script caught it and went on) was entered but never tied to its caller
+    raised = 0
+    for (site, cls, msg) in getattr(run, "caught", []):
+        info = run.gen.sites.get(site, {}) if getattr(run, "gen", None) else {}
+        if info.get("stmt") == "subqap_call" and cls == "AssertionError":
+            raised += 1
+    ncalls -= raised
     if nglue != ncalls and not ambiguous:
         yield "glue_incomplete", {"what": "count"}, "%d sub-circuit calls, %d [glue] lines" % (ncalls, nglue)
 
@@ -4301,6 +4308,12 @@ class C12(TraceCheck):
                             "inner": rng.randrange(0, k) if k else None})
             if subqaps[-1]["tmpl"] in (6, 7):
                 subqaps[-1]["nargs"] = 0
+            r3 = rng.random()
+            if r3 < 0.12:
+                # boolean-typed arguments / results, bodies that may raise
+                subqaps[-1]["tmpl"], subqaps[-1]["nargs"] = (9 if r3 < 0.05 else 10 if r3 < 0.09 else 11), 2
+            if subqaps[-1].get("inner") is not None and subqaps[subqaps[-1]["inner"]]["tmpl"] == 11:
+                subqaps[-1]["inner"] = None     # (a body that may raise is only called directly)
             if rng.random() < 0.04:
                 subqaps[-1]["tmpl"], subqaps[-1]["swap"] = 8, rng.random() < 0.5
                 subqaps[-1]["nargs"] = max(1, subqaps[-1]["nargs"])
